@@ -89,6 +89,10 @@ func suiteSerde(rn *runner, r *rng, tier string) {
 		c.expectLast(fmt.Sprintf("ok %d", len(c.pj.Tape)))
 		if strings.HasPrefix(out, "ok") {
 			dstReuse = c.st.pjs["q"]
+			if !big && m1 == simdjson.CompressNone && len(lastBlob) < 30000 {
+				// the bytes written: exactly what the encoder model (Lean: encodeSections) writes for their own sections
+				c.emit("reencode " + hx(lastBlob))
+			}
 			if !big {
 				c.emit("owalk q")
 				c.expectLast(ordRoots(roots))
